@@ -191,6 +191,9 @@ func TestC12(t *testing.T) {
 				fresh := &verify.Options{GetCollateral: cur.gc, CheckRevocations: cur.cr, Getter: worlds[cur.getter].NewGetter(), TrustedRoots: pools[cur.pool], Now: &fts}
 				shared.GetCollateral, shared.CheckRevocations = cur.gc, cur.cr
 				msg := worlds[i].Q.ToProto()
+				if rq, err := gen.RefParse(worlds[i].Raw); err == nil {
+					msg = rq.ToProto()
+				}
 				gen.Eval()
 				var vs, vf gen.Verdict
 				if raw {
@@ -267,7 +270,9 @@ func realClockScenario(done chan struct{}) {
 	time.Sleep(time.Until(expiry.Add(1500 * time.Millisecond)))
 	gen.Eval()
 	v2 := gen.Call(func() error { return verify.RawTdxQuote(w.Raw, shared) })
-	v3 := gen.Call(func() error { return verify.RawTdxQuote(w.Raw, &verify.Options{TrustedRoots: w.PKI.Pool(), Getter: gen.FailGetter{}}) })
+	v3 := gen.Call(func() error {
+		return verify.RawTdxQuote(w.Raw, &verify.Options{TrustedRoots: w.PKI.Pool(), Getter: gen.FailGetter{}})
+	})
 	gen.NonTrivial("real-clock", "default-time-set")
 	gen.Class("real-clock-scenario")
 	if v3.Accepted() {
